@@ -12,6 +12,6 @@ if [ ! -x $B/driver ] || [ "$(cat $B/.stamp 2>/dev/null)" != "$STAMP$SRCSTAMP" ]
   cp $V/coq/model.ml $V/coq/model.mli $B/
   cp $V/ocaml/*.ml $B/
   ocamlfind ocamlopt -package zarith -linkpkg -w -a -inline 200 \
-     model.mli model.ml bytespec.ml utf8check.ml machine_driver.ml b3sum_driver.ml kernel_driver.ml driver.ml -o driver
+     model.mli model.ml bytespec.ml utf8check.ml machine_driver.ml b3sum_driver.ml kernel_driver.ml c_driver.ml driver.ml -o driver
   echo "$STAMP$SRCSTAMP" > $B/.stamp
 fi
